@@ -56,6 +56,17 @@ theorem attr_enc_dec_exact (m : IceMode) (a : Attr) (hbold : a.isBold = false) :
 theorem attr_dec_expressible (m : IceMode) (b : Nat) (hb : b < 256) : Expressible m (fromU8 m b) :=
   dec_expressible_core m (IceMode.mem_all m) b hb
 
+/-- a bold attribute with a bright foreground (fg 8..15) also survives: encoding only ORs bit 3 into the foreground
+    nibble, it never carries into the background -/
+theorem attr_enc_dec_bold (m : IceMode) (fg bg : Nat) (blink : Bool) (hfg : fg < 16) (hbright : 8 ≤ fg)
+    (h : ExpressibleT m fg bg false blink) :
+    (fromU8 m (encByte m fg bg true blink)).fg = fg ∧ (fromU8 m (encByte m fg bg true blink)).bg = bg ∧
+    (fromU8 m (encByte m fg bg true blink)).isBlink = blink := by
+  have hbg : bg < 16 := by
+    have := h.2.2
+    cases m <;> simp only [] at this <;> omega
+  exact enc_dec_bold_core m (IceMode.mem_all m) fg hfg hbright bg hbg blink h
+
 /-- THE DEFECT OF THE PINNED TREE (cdb5b60), as a theorem about the pinned `as_u8`: the dec/enc round trip fails,
     witness `(Unlimited, 0x80)` -/
 theorem pinned_unlimited_defect : ¬ (∀ m b, b < 256 → asU8Pinned m (fromU8 m b) = b) := by
